@@ -40,7 +40,7 @@ FLOORS = {"C13-WALK": 60, "C13-KEY": 5, "C13-TRIM": 8, "C13-SPINE": 2, "C13-DIM"
 W = s_docx.NS["w"]
 TABLE_WALKS = [
     # label, module, entry, node name, schema, sinks to ignore, caller, cell kind(s), cell tag, region kinds
-    ("docx", X + "ms_modern/docx_extractor.py", "_extract_tables_from_context", "body", s_docx.table_schema, frozenset(), "read_docx", {"tc"}, "{%s}tc" % W, {"tc"}),
+    ("docx", X + "ms_modern/docx_extractor.py", "_extract_tables_from_context", ("attr", "document_body"), s_docx.table_schema, frozenset(), "read_docx", {"tc"}, "{%s}tc" % W, {"tc"}),
     ("odt", X + "open_office/odt_extractor.py", "_extract_tables", "body", s_odt.body_schema, frozenset(), "read_odt", {"tcell"}, "{%s}table-cell" % s_odt.NS["table"], {"tcell"}),
     ("odp", X + "open_office/odp_extractor.py", "_extract_table", "table_elem", s_odf.odp_table, frozenset(), "read_odp", {"tcell"}, "{%s}table-cell" % s_odf.NS["table"], {"tcell"}),
     ("pptx", X + "ms_modern/pptx_extractor.py", "_extract_table_from_graphic_frame", "elem", s_pptx.graphic_frame, frozenset(), "read_pptx", {"tc"}, "{%s}tc" % s_pptx.NS["a"], {"tc"}),
